@@ -69,6 +69,32 @@ CLAIMED = {
         "hooks overwritten by config_setting_set_hook are not passed to the destructor (as documented), stated in C16_set_hook.",
    technique="Coq proof (multiset conservation invariant by induction over histories) + correspondence",
    ref="5 (C16)"),
+ "C09": dict(
+   text="Coq theorems (Properties_C09.v, closed under the global context) over rw_step, the model of "
+        "config_read_string/config_read/config_read_file/config_write_file on one object over a virtual file system "
+        "(scanner = compiled flex tables, include machine, parser, error-field updates as the code performs them): the "
+        "complete outcome of a call - return value, settings, all four error fields - is independent of the error state "
+        "left by earlier calls (for every input, file system and history); success leaves type none with text/file/line "
+        "cleared; a failing read is a parse error with a message or (file not openable) an I/O error; a failing write an "
+        "I/O error. Tied to /repo by every history of length 2 (quick) / 3 (thorough) over 14 calls, error fields compared "
+        "after every call with the model and, model-free, with the same call on a fresh object.",
+   note="The C++ ParseException/FileIOException carry the same fields through Config::handleError; that layer is "
+        "not modelled (see C17).",
+   technique="Coq proof (non-interference of the error state, by unfolding the reader/writer model) + exhaustive-bounded correspondence",
+   ref="5 (C09)"),
+ "C12": dict(
+   text="Coq theorems (Properties_C12.v, closed under the global context) over write_file, the model of "
+        "config_write_file on a buffered stream and a device that may refuse the open, hold only n bytes, fail fsync "
+        "or fail close, for every text, every device and every split k of the text between writes during "
+        "config_write and the final flush: success is reported iff the open succeeded, the whole text fitted, the "
+        "requested fsync succeeded and the close succeeded; on success the file content is exactly the config_write "
+        "text and the error type is none; otherwise CONFIG_FALSE with an I/O error. Tied to /repo by fault "
+        "enumeration on the real function: RLIMIT_FSIZE at boundary sizes, fsync/fclose/fopen forced to fail "
+        "(--wrap), missing directory, fsync option off/on, read-back of the written file.",
+   note="Assumed stdio contract: a push the device does not take completely sets the error indicator or makes the "
+        "fflush/fclose performing it return EOF. C++ Config::writeFile throws FileIOException from the same return value (C17).",
+   technique="Coq proof (case analysis over the device/stream model, arithmetic by lia) + fault-injection correspondence",
+   ref="5 (C12)"),
 }
 
 REASON_PENDING = "not decided in the committed state of this round: the Coq theorem for this property is not yet in the tree, and a property is never claimed on testing alone (DESIGN.md section 11)"
